@@ -12,6 +12,7 @@
   run only.
 -/
 import PLV.Lemmas.TextRecords
+import PLV.Lemmas.TextLists
 import PLV.Props.Ranges
 
 namespace PLV.C16
@@ -417,6 +418,98 @@ theorem C16_snapshot (s : SnapSummary) (h : s.price < W ∧ s.vis < W ∧ s.hid 
   obtain ⟨p, v, hq, c⟩ := s
   obtain ⟨h1, h2, h3, h4⟩ := h
   exact rt_Snap p v hq c h1 h2 h3 h4
+
+/-! ### the order queue (a list of orders of any length) -/
+
+macro "rec_fields" : tactic =>
+  `(tactic| ((repeat' (first | exact allRec_nil | apply allRec_cons)) <;>
+             (refine recChars_kv _ _ ?_ ?_ <;> plain_tac)))
+
+theorem recChars_order_aux (name : String) (fields : List Str) (hn : Plain (lit name)) (h : AllRec fields) :
+    RecChars (record name fields) := recChars_record name fields hn h.all
+
+theorem rc_standard (id : Id) (price vis : Nat) (side : Side) (ts : Nat) (tif : Tif)  :
+    RecChars (showOrder ⟨id, price, vis, side, ts, tif, .standard⟩) := by
+  simp only [showOrder, List.cons_append, List.nil_append]; apply recChars_order_aux _ _ (by plain_tac); rec_fields
+
+theorem rc_postOnly (id : Id) (price vis : Nat) (side : Side) (ts : Nat) (tif : Tif)  :
+    RecChars (showOrder ⟨id, price, vis, side, ts, tif, .postOnly⟩) := by
+  simp only [showOrder, List.cons_append, List.nil_append]; apply recChars_order_aux _ _ (by plain_tac); rec_fields
+
+theorem rc_marketToLimit (id : Id) (price vis : Nat) (side : Side) (ts : Nat) (tif : Tif)  :
+    RecChars (showOrder ⟨id, price, vis, side, ts, tif, .marketToLimit⟩) := by
+  simp only [showOrder, List.cons_append, List.nil_append]; apply recChars_order_aux _ _ (by plain_tac); rec_fields
+
+theorem rc_trailingStop (id : Id) (price vis : Nat) (side : Side) (ts : Nat) (tif : Tif) (t r : Nat) :
+    RecChars (showOrder ⟨id, price, vis, side, ts, tif, .trailingStop t r⟩) := by
+  simp only [showOrder, List.cons_append, List.nil_append]; apply recChars_order_aux _ _ (by plain_tac); rec_fields
+
+theorem rc_pegged (id : Id) (price vis : Nat) (side : Side) (ts : Nat) (tif : Tif) (off : Int) (r : PegRef) :
+    RecChars (showOrder ⟨id, price, vis, side, ts, tif, .pegged off r⟩) := by
+  simp only [showOrder, List.cons_append, List.nil_append]; apply recChars_order_aux _ _ (by plain_tac); rec_fields
+
+theorem rc_iceberg (id : Id) (price vis : Nat) (side : Side) (ts : Nat) (tif : Tif) (hq : Nat) :
+    RecChars (showOrder ⟨id, price, vis, side, ts, tif, .iceberg hq⟩) := by
+  simp only [showOrder, List.cons_append, List.nil_append]; apply recChars_order_aux _ _ (by plain_tac); rec_fields
+
+theorem rc_reserve_nf (id : Id) (price vis : Nat) (side : Side) (ts : Nat) (tif : Tif) (hq thr : Nat) :
+    RecChars (showOrder ⟨id, price, vis, side, ts, tif, .reserve hq thr none false⟩) := by
+  simp only [showOrder, List.cons_append, List.nil_append]; apply recChars_order_aux _ _ (by plain_tac); rec_fields
+
+theorem rc_reserve_nt (id : Id) (price vis : Nat) (side : Side) (ts : Nat) (tif : Tif) (hq thr : Nat) :
+    RecChars (showOrder ⟨id, price, vis, side, ts, tif, .reserve hq thr none true⟩) := by
+  simp only [showOrder, List.cons_append, List.nil_append]; apply recChars_order_aux _ _ (by plain_tac); rec_fields
+
+theorem rc_reserve_sf (id : Id) (price vis : Nat) (side : Side) (ts : Nat) (tif : Tif) (hq thr a : Nat) :
+    RecChars (showOrder ⟨id, price, vis, side, ts, tif, .reserve hq thr (some a) false⟩) := by
+  simp only [showOrder, List.cons_append, List.nil_append]; apply recChars_order_aux _ _ (by plain_tac); rec_fields
+
+theorem rc_reserve_st (id : Id) (price vis : Nat) (side : Side) (ts : Nat) (tif : Tif) (hq thr a : Nat) :
+    RecChars (showOrder ⟨id, price, vis, side, ts, tif, .reserve hq thr (some a) true⟩) := by
+  simp only [showOrder, List.cons_append, List.nil_append]; apply recChars_order_aux _ _ (by plain_tac); rec_fields
+
+/-- a printed order consists of field characters and `:`, `=`, `;` only — in particular it contains
+    no comma and no bracket, for every order -/
+theorem showOrder_recChars (o : Order) : RecChars (showOrder o) := by
+  obtain ⟨id, price, vis, side, ts, tif, kind⟩ := o
+  cases kind with
+  | standard => exact rc_standard id price vis side ts tif
+  | postOnly => exact rc_postOnly id price vis side ts tif
+  | marketToLimit => exact rc_marketToLimit id price vis side ts tif
+  | trailingStop t r => exact rc_trailingStop id price vis side ts tif t r
+  | pegged off r => exact rc_pegged id price vis side ts tif off r
+  | iceberg hq => exact rc_iceberg id price vis side ts tif hq
+  | reserve hq thr amt auto =>
+    cases amt with
+    | none => cases auto
+              · exact rc_reserve_nf id price vis side ts tif hq thr
+              · exact rc_reserve_nt id price vis side ts tif hq thr
+    | some a => cases auto
+                · exact rc_reserve_sf id price vis side ts tif hq thr a
+                · exact rc_reserve_st id price vis side ts tif hq thr a
+
+theorem showOrder_ne_nil (o : Order) : showOrder o ≠ [] := by
+  obtain ⟨id, price, vis, side, ts, tif, kind⟩ := o
+  cases kind <;> (simp only [showOrder]; exact record_ne_nil _ _)
+
+/-- **order queue**: any number of orders, in the order printed -/
+theorem C16_queue (os : List Order) (h : ∀ o ∈ os, OrderOk o) : parseQueue (showQueue os) = .ok os := by
+  unfold parseQueue showQueue
+  simp only [startsWith_wrapped, endsWith_append, Bool.not_true, Bool.false_eq_true, or_self, if_false, middle]
+  cases hos : os with
+  | nil => simp [joinSep]
+  | cons o rest =>
+    rw [← hos]
+    have hne : os.map showOrder ≠ [] := by simp [hos]
+    have hbody : joinSep [','] (os.map showOrder) ≠ [] :=
+      joinSep_ne_nil _ _ hne (by intro x hx; obtain ⟨o', _, rfl⟩ := List.mem_map.1 hx; exact showOrder_ne_nil o')
+    have hsplit : splitOn ',' (joinSep [','] (os.map showOrder)) = os.map showOrder :=
+      splitOn_joinSep ',' _ hne (by
+        intro x hx; obtain ⟨o', _, rfl⟩ := List.mem_map.1 hx
+        exact (showOrder_recChars o').no (by decide))
+    rw [if_neg (by simpa using hbody), hsplit]
+    exact mapM_show showOrder (fun p => match parseOrder p with | .ok o => .ok o | .error _ => .error Err.parseError) os
+      (fun o' ho' => by simp only [C16_order o' (h o' ho')])
 
 /-! non-vacuity: a reserve order with boundary values satisfies the premise -/
 example : OrderOk ⟨⟨true, 2 ^ 128 - 1⟩, W - 1, 0, .buy, W - 1, .gtd (W - 1), .reserve (W - 1) 0 none true⟩ :=
